@@ -32,17 +32,17 @@ pub enum Via {
 
 #[derive(Clone, Debug, Serialize, Deserialize)]
 pub enum RelayMsg {
-    Send { to: String, coins: Coins },
-    Burn { coins: Coins },
+    Send { to: String, #[serde(with = "crate::model::bank::coins_serde")] coins: Coins },
+    Burn { #[serde(with = "crate::model::bank::coins_serde")] coins: Coins },
 }
 
 #[derive(Clone, Debug, Serialize, Deserialize)]
 pub enum BOp {
-    Send { from: String, to: String, coins: Coins, via: Via },
-    Burn { from: String, coins: Coins },
-    Mint { to: String, coins: Coins },
+    Send { from: String, to: String, #[serde(with = "crate::model::bank::coins_serde")] coins: Coins, via: Via },
+    Burn { from: String, #[serde(with = "crate::model::bank::coins_serde")] coins: Coins },
+    Mint { to: String, #[serde(with = "crate::model::bank::coins_serde")] coins: Coins },
     /// user calls the relay contract with `funds`; the contract emits `msgs` as bank messages
-    Relay { user: String, funds: Coins, msgs: Vec<RelayMsg> },
+    Relay { user: String, #[serde(with = "crate::model::bank::coins_serde")] funds: Coins, msgs: Vec<RelayMsg> },
 }
 
 #[derive(Clone, Debug, Serialize, Deserialize)]
@@ -491,6 +491,16 @@ pub fn run_random(rng: &mut Rng, len: usize, rep: &mut Report) -> (Case, Option<
             ops.push(BOp::Mint { to: format!("crowd{}", i).into_addr().to_string(), coins });
         }
         rep.bump("c09/histories_with_a_crowd_of_accounts");
+    }
+    // now and then an account holding half of the 128-bit range in each of two denominations and a quarter in a
+    // third: every balance and supply stays within range, the amounts of one message added up across denominations
+    // do not; it sends all of it in one message first
+    if rng.chance(1, 10) {
+        let whale = w.users[3].clone();
+        ops.push(BOp::Mint { to: whale.clone(), coins: vec![("wa".to_string(), 1u128 << 127), ("wb".to_string(), 1u128 << 127), ("wc".to_string(), 1u128 << 126)] });
+        ops.push(BOp::Send { from: whale.clone(), to: w.users[2].clone(), coins: vec![("wa".to_string(), 1u128 << 127), ("wb".to_string(), 1u128 << 127)], via: if rng.chance(1, 2) { Via::Execute } else { Via::Keeper } });
+        ops.push(BOp::Burn { from: w.users[2].clone(), coins: vec![("wa".to_string(), (1u128 << 127) - 5), ("wb".to_string(), (1u128 << 127) - 7)] });
+        rep.bump("c09/histories_with_amounts_adding_up_beyond_128_bits_across_denominations");
     }
     // now and then an account holding more than a hundred denominations
     if rng.chance(1, 30) {
